@@ -546,8 +546,11 @@ func ruleR33() *Rule {
 		Floor: floorFor("R33"),
 		Run: func(c *RuleCtx) {
 			for _, sp := range threadTable {
-				fn := c.fn(sp.Fn)
+				fn := c.p.Func(sp.Fn)
 				if fn == nil {
+					// the routine is gone (its callers were unified behind something else): what threads a
+					// running number through a call now is found from the call sites below
+					c.okP(sp.Props, sp.Fn+"/"+sp.Param+"/absent", "-", sp.Fn+" no longer exists: accumulators threaded through calls are discovered from the call sites (R33 discovered)")
 					continue
 				}
 				var prm *ssa.Parameter
@@ -621,6 +624,18 @@ func r33Discovered(c *RuleCtx) {
 				return false
 			}
 			return walk(res, 0)
+		}
+		// ... or as a field of the object the caller is a method of (`m.next, err = f(m.next, …)`)
+		if u, ok := arg.(*ssa.UnOp); ok && u.Op == token.MUL && res.Referrers() != nil {
+			if fa, ok := u.X.(*ssa.FieldAddr); ok {
+				for _, r := range *res.Referrers() {
+					if st, ok := r.(*ssa.Store); ok && st.Val == res {
+						if fb, ok := st.Addr.(*ssa.FieldAddr); ok && fb.Field == fa.Field && sameQuantity(fb.X, fa.X, 0) {
+							return true
+						}
+					}
+				}
+			}
 		}
 		// ... or as a local cell
 		if cell := localCellOfLoad(arg); cell != nil && res.Referrers() != nil {
